@@ -13,6 +13,7 @@ import Sky.Ledger.Run
 import Sky.Ledger.Xor
 import Sky.Ledger.AddrIndex
 import Sky.Ledger.Replay
+import Sky.Ledger.Progress
 namespace Sky.Props.C07
 open Sky Sky.Ledger
 
@@ -130,6 +131,13 @@ theorem rebuild_from_blocks_same (cfg : Cfg) (ops : List Op) :
 /-- the same from any state whose data already equal the replay of its chain -/
 theorem rebuild_same_after_run (s0 : State) (ops : List Op) (h0 : Replayed s0) : Replayed (run s0 ops) :=
   replayed_after_run s0 ops h0
+
+/-- after EVERY history: unspent ids are unique, the per-address index is exact and duplicate-free, the history
+has a record for every unspent output, and the index height is the head sequence — the invariants under which no
+storage step of block execution can fail (`Sky.Ledger.execSigned_succeeds`) -/
+theorem storage_invariants_after_run {G : Nat} {g : Block} {cfg : Cfg} (s0 : State) (ops : List Op)
+    (h0 : Good G g cfg s0) (hst : Strong s0) (hwf : ∀ op ∈ ops, OpOK op) : Strong (run s0 ops) :=
+  strong_after_run s0 ops h0 hst hwf
 
 /-- the state right after genesis (one output, one index row) is exact — the hypothesis of
 `addr_index_exact_after_run` is met by the state every node starts from -/
